@@ -70,6 +70,9 @@ def run(tier, seed):
     wd = core.workdir("C12")
     try:
         mc = activation.model_check(wd)
+        # unbounded: TLAPS proves the window agreement, the stage correspondence and the delivery / input gates
+        # inductive for arbitrary constants (ActivationProofs.tla)
+        nproved = core.tlaps("ActivationProofs", wd)
         depth = 3 if tier == "quick" else 4
         gen, hists = activation.generate(wd, depth)
         if len(hists) < 1000:
@@ -112,9 +115,9 @@ def run(tier, seed):
                "rule": "every behaviour of the Activation model with %d server steps (TLC, exhaustive over one message per letter plus parameter variants) "
                        "+ %d random walks of 60 steps, an input attempt of each of 5 kinds after every step; distinct = distinct step sequences" % (depth, len(walks)),
                "events_validated": nev, "gen_states": gen.distinct, "mc_actions": {k: list(x) for k, x in mc.actions.items()},
-               "binding_selftest_rejected": tested,
+               "binding_selftest_rejected": tested, "tlaps_obligations_proved": nproved,
                "checker_cmd": mc.cmd, "exhaustive": True,
-               "explanation": "MC: Activation.tla has no history variable, so the invariants hold for server/user histories of every length. "
+               "explanation": "MC: Activation.tla has no history variable, so the invariants hold for server/user histories of every length; TLAPS (ActivationProofs.tla) proves WindowAgreement, AdvanceOnlyOnExpected, BitmapsInWindow and the input gate inductive for arbitrary constant sets. "
                               "TV: every recorded run must be a behaviour of the same module, with client output decoded by WireClient.tla."}
         return v.finish("model_checking", cov, [
             "well-formed server PDUs only (hostile bytes are C06)",
